@@ -4,6 +4,7 @@ package gen
 
 import (
 	"fmt"
+	mathbits "math/bits"
 	"sort"
 
 	"pgregory.net/rapid"
@@ -20,13 +21,35 @@ func NewD(t *rapid.T) *D { return &D{T: t, Labels: map[string]bool{}} }
 
 func (d *D) lbl() string { d.n++; return fmt.Sprintf("d%d", d.n) }
 
-// Int draws lo..hi, shrinking to lo.
-func (d *D) Int(lo, hi int) int { return rapid.IntRange(lo, hi).Draw(d.T, d.lbl()) }
+var boolGen = rapid.Bool()
 
-// Pct is true with probability p/100 and shrinks to false.
-func (d *D) Pct(p int) bool { return rapid.IntRange(0, 99).Draw(d.T, d.lbl()) >= 100-p }
+// bits draws k independent fair bits (rapid's integer generators are deliberately biased towards
+// small values - a measured Pct(80) built on IntRange(0,99) was true in under half of the cases -
+// whereas Bool is a fair coin). All-false is the minimum, so every derived draw shrinks to its
+// simplest choice.
+func (d *D) bits(k int) uint64 {
+	var u uint64
+	for i := 0; i < k; i++ {
+		if boolGen.Draw(d.T, d.lbl()) {
+			u |= 1 << uint(i)
+		}
+	}
+	return u
+}
 
-func (d *D) Bool() bool { return rapid.Bool().Draw(d.T, d.lbl()) }
+// Int draws lo..hi (close to uniformly), shrinking to lo.
+func (d *D) Int(lo, hi int) int {
+	n := uint64(hi - lo + 1)
+	if n <= 1 {
+		return lo
+	}
+	return lo + int(d.bits(mathbits.Len64(n-1)+4)%n)
+}
+
+// Pct is true with probability p/100 (granularity 1/128) and shrinks to false.
+func (d *D) Pct(p int) bool { return d.bits(7)*100/128 >= uint64(100-p) }
+
+func (d *D) Bool() bool { return boolGen.Draw(d.T, d.lbl()) }
 
 // Pick draws an element, shrinking to the first.
 func (d *D) Pick(ss []string) string { return ss[d.Int(0, len(ss)-1)] }
